@@ -22,5 +22,56 @@ impl SOA {
 //%mutant add_two "1" => "2"
 //%end
 }
+// ---- RFC 2136 3.4.1: the Update Section prescan (SqliteZoneHandler::pre_scan, an `async fn` without awaits).
+//      C12: "a message whose prerequisites or prescan fail changes nothing" -- WHICH messages fail the prescan is
+//      RFC 2136 3.4.1.3, written here as a spec predicate per update RR. ----
+#[derive(Clone, Copy)] pub enum ResponseCode { NoError, FormErr, NotZone, Other(u16) }
+#[derive(Clone, Copy)] pub enum DNSClass { IN, CH, HS, NONE, ANY, Other(u16) }
+impl vstd::std_specs::cmp::PartialEqSpecImpl for DNSClass { open spec fn obeys_eq_spec() -> bool { true } open spec fn eq_spec(&self, o: &DNSClass) -> bool { *self == *o } }
+impl PartialEq for DNSClass {
+    fn eq(&self, o: &DNSClass) -> (r: bool) { match (*self, *o) { (DNSClass::IN, DNSClass::IN) => true, (DNSClass::CH, DNSClass::CH) => true, (DNSClass::HS, DNSClass::HS) => true,
+        (DNSClass::NONE, DNSClass::NONE) => true, (DNSClass::ANY, DNSClass::ANY) => true, (DNSClass::Other(a), DNSClass::Other(b)) => a == b, _ => false } }
+}
+#[derive(Clone, Copy)] pub enum RecordType { ANY, AXFR, IXFR, Other(u16) }
+// only what the prescan looks at: an RR without RDATA decodes to Update0, NULL stands for "RDATA of length zero" too
+pub enum RData { Update0(RecordType), NULL(u64), Other(u64) }
+pub struct Name { pub id: u64 }
+pub struct Record { pub name: Name, pub dns_class: DNSClass, pub ttl: u32, pub data: RData, pub rtype: RecordType }
+impl Record { pub fn record_type(&self) -> (r: RecordType) ensures r == self.rtype { self.rtype } }
+pub struct VpInMemory { pub class: DNSClass }
+impl VpInMemory { pub fn class(&self) -> (r: DNSClass) ensures r == self.class { self.class } }
+pub struct SqliteZoneHandler { pub in_memory: VpInMemory, pub vp: u64 }
+pub uninterp spec fn in_zone(z: u64, n: Name) -> bool;
+impl SqliteZoneHandler {
+    // `self.origin().zone_of(&(&rr.name).into())`
+    #[verifier::external_body] pub fn vp_in_zone(&self, n: &Name) -> (r: bool) ensures r == in_zone(self.vp, *n) { unimplemented!() }
+}
+pub open spec fn meta_type(t: RecordType) -> bool { t is AXFR || t is IXFR }       // AXFR|MAILA|MAILB of the RFC (IXFR in this code base)
+// RFC 2136 3.4.1.3, one RR of the Update Section
+pub open spec fn prescan_ok(z: u64, zclass: DNSClass, rr: Record) -> bool {
+    in_zone(z, rr.name) && (
+        if rr.dns_class == zclass { !(rr.rtype is ANY) && !meta_type(rr.rtype) }
+        else if rr.dns_class is ANY { rr.ttl == 0 && (rr.data is Update0 || rr.data is NULL) && !meta_type(rr.rtype) }
+        else if rr.dns_class is NONE { rr.ttl == 0 && !(rr.rtype is ANY) && !meta_type(rr.rtype) }
+        else { false })
+}
+impl SqliteZoneHandler {
+//%fn crates/server/src/store/sqlite/mod.rs :: impl<P: RuntimeProvider + Send + Sync> SqliteZoneHandler<P> :: pre_scan
+//%sub1 "pub async fn" => "pub fn" # R-await: an `async fn` whose body contains no `.await`
+//%sub1 "self.origin().zone_of(&(&rr.name).into())" => "self.vp_in_zone(&rr.name)" # R-shim: LowerName conversion + zone_of: the uninterpreted "inside the zone" relation
+//%after "for rr in"
+            vp_it:
+//%after "for rr in records"
+            invariant forall|j: int| 0 <= j < vp_it.index@ ==> prescan_ok(self.vp, self.in_memory.class, #[trigger] records@[j])
+//%mutant none_class_ttl_not_checked "DNSClass::NONE => { if rr.ttl != 0 { return Err(ResponseCode::FormErr); }" => "DNSClass::NONE => {"
+//%mutant any_class_with_rdata_accepted "_ => return Err(ResponseCode::FormErr), }"@1 => "_ => (), }"
+//%contract
+        // the prescan succeeds only if EVERY update RR passes RFC 2136 3.4.1.3 ...
+        ensures r is Ok ==> forall|j: int| 0 <= j < records@.len() ==> prescan_ok(self.vp, self.in_memory.class, #[trigger] records@[j]),
+            // ... and fails with NOTZONE / FORMERR, nothing else
+            r matches Err(c) ==> c is NotZone || c is FormErr,
+//%end
+}
+
 } // verus!
 fn main() {}
